@@ -3,6 +3,8 @@
 HOOK_COMMITS = ["1ba4448"]
 
 ENGINES = [
+    {"name": "m_robust", "path": "harness/vh/src/bin/m_robust.rs", "serves_properties": ["C10", "C20"],
+     "kind_free_text": "runtime monitor: all-offsets x all-query-kinds sweep over generated, corpus and damaged workspaces loaded into ide::AnalysisHost; panic/abort monitor (C10) and range-validity monitor (C20) over the same executions"},
     {"name": "m_gram", "path": "harness/vh/src/bin/m_gram.rs", "serves_properties": ["C03", "C04"],
      "kind_free_text": "runtime monitor: grammar-generated programs (vh::gen, vh::prog printer with sidecar) are parsed by the real parser; C04 reads the CST back through the public typed accessors (vh::cstread) and compares with the intended structure; C03 damages one body and compares glas's own item list before/after"},
     {"name": "m_syntax", "path": "harness/vh/src/bin/m_syntax.rs", "serves_properties": ["C01", "C02"],
@@ -46,5 +48,19 @@ META = {
                        "Found and repaired: `<=.` operator kind, slot-confusing accessors (Param::ty, StmtLet::body), string-prefix pattern tree."),
         "design_ref": "DESIGN.md §5 C04",
         "level_note": "Supported surface = the generator's grammar (listed in evidence.assumptions); the reference precedence table is Gleam's, transcribed by hand.",
+    },
+    "C10": {
+        "technique": "all-offsets x all-queries sweep under a panic/abort monitor (catch_unwind + panic hook, 2 MiB stack, write-ahead journal for process deaths)",
+        "level_text": ("Exploration: ~6x10^7 query executions per quick run over ~10^4 distinct broken workspaces (fixed hostile shapes, corpus mutants, generated workspaces with damage incl. import cycles); "
+                       "every query kind at every token boundary. Found and repaired: stack overflow on self-referential aliases, out-of-bounds side-table lookups, salsa cycle panics on import cycles."),
+        "design_ref": "DESIGN.md §5 C10",
+        "level_note": "Workspaces of 1-4 files in one package; offsets sampled (400 per file) for long files; hangs are judged by bounded progress (20 s per query) and the shard watchdog (inconclusive).",
+    },
+    "C20": {
+        "technique": "range-validity monitor over every answer of the C10 sweep (token tables of the same parse)",
+        "level_text": ("Exploration: every range in every answer of ~6x10^7 query executions is checked against the file it names: membership in the workspace, bounds, character boundaries, "
+                       "whole-token for name-like results, token boundaries and focus-in-full for navigation targets."),
+        "design_ref": "DESIGN.md §5 C20",
+        "level_note": "Cursors inside a multi-byte character are not judged (not nameable by an LSP client; C15's domain). Multi-package workspaces are covered by C08/C17.",
     },
 }
